@@ -17,7 +17,7 @@ from mc.models import xpgrammar as G
 
 VERSIONS = ['1.0', '2.0', '3.0', '3.1']
 OPERANDS = ['$a', '$b', '.', '($a, $b)']
-FILLERS = ['', '\n', '  ', '(: c :)', '(: (: n :) :)', ' (:c:) ', '(: a :)(: b :)', '(: a :) (: b :)', '(:a:)\n(: (: n :) :)(:c:)']
+FILLERS = ['', '\n', '  ', '(: c :)', '(: (: n :) :)', ' (:c:) ', '(: a :)(: b :)', '(: a :) (: b :)', '(:a:)\n(: (: n :) :)(:c:)', '(: a (: b (: c :) b :) a :)', '(:(:(:(::):):):)']
 TYPE_FOR = {'instance of': ['xs:integer', 'item()*'], 'treat as': ['item()*'], 'castable as': ['xs:integer', 'xs:string?'],
             'cast as': ['xs:integer', 'xs:string?']}
 
@@ -72,6 +72,8 @@ def plan(tier, seed):
         units.append({'kind': 'postfix', 'ver': ver})
         units.append({'kind': 'nesting', 'ver': ver})
         units.append({'kind': 'keyword-names', 'ver': ver})
+        if ver != '1.0':
+            units.append({'kind': 'seqtype-source', 'ver': ver})
     seeds = [0, 1, 2, 3, seed % (2 ** 32)] if tier == 'quick' else list(range(32)) + [seed % (2 ** 32)]
     for s in sorted(set(seeds)):
         units.append({'kind': 'hashseed', 'seed': s})
@@ -163,6 +165,9 @@ def ambiguous(items):
     return False
 
 
+CMP_CLASS = {**{o: 'value' for o in ('eq', 'ne', 'lt', 'le', 'gt', 'ge')}, **{o: 'general' for o in ('=', '!=', '<', '<=', '>', '>=')}, **{o: 'node' for o in ('is', '<<', '>>')}}
+
+
 def check_chain(ver, items, prefix_at, operands, acc, fam):
     if ambiguous(items):
         return
@@ -193,6 +198,12 @@ def check_chain(ver, items, prefix_at, operands, acc, fam):
         # but nothing except an ElementPathError may come out
         acc.outcome('underivable:' + a[0] + (':' + a[1] if a[0] == 'error' else ''))
         acc.add('underivable_' + ('accepted' if a[0] == 'ok' else 'rejected'))
+        # one class of underivable chains is judged: two comparison operators in a row.  ComparisonExpr is not associative in
+        # XPath 2.0+ ( RangeExpr ( (ValueComp | GeneralComp | NodeComp) RangeExpr )? ), so the chain is a syntax error
+        cmpcls = [CMP_CLASS.get(it[1]) for it in items]
+        if ver != '1.0' and len(items) == 2 and prefix_at is None and all(cmpcls) and a[0] == 'ok':
+            kind = 'node+node' if cmpcls == ['node', 'node'] else 'mixed-classes' if cmpcls[0] != cmpcls[1] else cmpcls[0] + '+' + cmpcls[1]
+            acc.violation('C04|underivable-comparison-chain-accepted|%s|%s' % (ver, kind), '%s: %s' % (ver, flat), {'expected': 'XPST0003', 'tree_observed': a[1][:200]}, case)
         if a[0] == 'escape':
             acc.violation('C04|escape|%s|%s' % (ver, a[1]), '%s: %s' % (ver, flat), {'observed': repr(a[:2])}, case)
         return
@@ -258,6 +269,8 @@ def run_unit(unit, tier, acc):
         run_nesting(unit['ver'], tier, acc)
     elif k == 'keyword-names':
         run_keyword_names(unit['ver'], tier, acc)
+    elif k == 'seqtype-source':
+        run_seqtype_source(unit['ver'], tier, acc)
     else:
         run_hashseed(unit['seed'], acc)
 
@@ -307,6 +320,43 @@ def run_keyword_names(ver, tier, acc):
                                   '%s: %r (keyword %r)' % (ver, src, kw), {'expected_tree': b[1].replace(neutral, name)[:160], 'observed': repr(r[:2])[:200]},
                                   {'kind': 'ws', 'ver': ver, 'src': src, 'base': ctx.replace('N', neutral), 'rename': [name, neutral]})
     acc.sample({'version': ver, 'expression': 'mod.x + 1', 'expected_tree': '(+ (mod.x) (1))'}, limit=1)
+
+
+SEQ_TYPES = ['xs:integer', 'item()', 'node()', 'element()', 'element(x)', 'element(*)', 'attribute()', 'text()', 'comment()', 'document-node()', 'xs:string', 'xs:anyAtomicType',
+             'processing-instruction()', 'document-node(element(r))']
+SEQ_TYPES30 = ['function(*)', 'function(item()) as item()', 'namespace-node()']
+SEQ_TYPES31 = ['map(*)', 'array(*)', 'map(xs:string, item()*)', 'array(xs:integer)']
+
+
+def run_seqtype_source(ver, tier, acc):
+    """the source of an expression with a sequence type keeps the occurrence indicator: E instance of T<occ> / treat as / castable as, for
+    every T of a list x every occurrence indicator x operands that are empty, one item and two items; source round trip of tree AND value"""
+    types = SEQ_TYPES + (SEQ_TYPES30 if ver >= '3.0' else []) + (SEQ_TYPES31 if ver == '3.1' else [])
+    for t in types:
+        for occ in ('', '?', '*', '+'):
+            for operand in ('$a', '($a, $b)', '()', '.', '(1, 2)'):
+                for op in ('instance of', 'treat as'):
+                    src = '%s %s %s%s' % (operand, op, t, occ)
+                    a = impl_parse(ver, src)
+                    acc.ev()
+                    if a[0] != 'ok':
+                        acc.outcome('seqtype:' + a[0])
+                        if a[0] == 'escape' or (a[0] == 'error' and a[1] == 'XPST0003'):
+                            acc.violation('C04|sequence-type-expression-rejected|%s|%s' % (ver, op), '%s: %s' % (ver, src), {'observed': repr(a[:2])}, {'kind': 'ws', 'ver': ver, 'src': src, 'base': src})
+                        continue
+                    acc.case(True)
+                    ea = evaluate(a[2])
+                    s2 = a[2].source
+                    c = impl_parse(ver, s2)
+                    acc.ev(2)
+                    acc.cmp()
+                    ok = c[0] == 'ok' and c[1] == a[1] and evaluate(c[2]) == ea
+                    acc.outcome('seqtype:' + ('ok' if ok else 'bad'))
+                    if not ok:
+                        acc.violation('C04|source-roundtrip-%s|%s|sequence-type-occurrence' % ('tree' if c[0] != 'ok' or c[1] != a[1] else 'value', ver), '%s: source of %r is %r' % (ver, src, s2),
+                                      {'value': repr(ea)[:120], 'reparsed': repr(c[:2])[:120], 'value_of_reparsed': repr(evaluate(c[2]))[:120] if c[0] == 'ok' else None},
+                                      {'kind': 'ws', 'ver': ver, 'src': s2, 'base': src})
+    acc.sample({'version': ver, 'expression': '($a, $b) instance of element()+', 'check': 'parse(e).source re-parses to the same tree and value'}, limit=1)
 
 
 def _safe_paren(toks, ver):
